@@ -7,6 +7,10 @@
 # cannot wedge the machine; the lock only serialises writers of the .vo files.
 set -e
 cd "$(dirname "$0")"
+# fast path without the lock: explicit targets that are already up to date
+if [ $# -gt 0 ] && [ -f Makefile.coq ] && [ -f _CoqProject ]; then
+  case "$1" in -*) ;; *) if make -q -f Makefile.coq "$@" >/dev/null 2>&1; then exit 0; fi ;; esac
+fi
 exec 9>.build.lock
 flock -w ${COQ_LOCK_WAIT:-1500} 9 || { echo "mk.sh: could not get the build lock" >&2; exit 75; }
 {
